@@ -742,14 +742,16 @@ func (s *Session) hotRestart(epoch uint64, event eventType) error {
 	binary.BigEndian.PutUint64(data[offset:offset+8], epoch)
 	header(data).encode(uint32(len(data)), s.communicationVersion, event)
 
-	if atomic.CompareAndSwapUint32(&s.writing, 0, 1) {
-		//fast path
-		s.writeEventData(data, nil)
-		atomic.StoreUint32(&s.writing, 0)
-		asyncNotify(s.notifyContinueWriteCh)
-	} else {
-		//slow path
-		s.sendCh <- sendReady{nil, data, nil}
+	// always hand the event to the send loop: the callers (Listener.HotRestart,
+	// SessionManager.checkHotRestart) hold their locks while they iterate over the
+	// sessions, and writing inline would block on a full socket buffer with those
+	// locks held - the event loop that has to drain the buffer needs the same locks.
+	select {
+	case s.sendCh <- sendReady{nil, data, nil}:
+	case <-s.shutdownCh:
+		return s.shutdownErr
+	default:
+		return ErrConnectionWriteTimeout
 	}
 
 	return nil
